@@ -5,7 +5,7 @@ import ast
 
 from ..lin import Lin, Infeasible
 from ..avals import *   # noqa
-from ..decide import Runs, need_ge0, need_eq0, definite, soft, iterations
+from ..decide import require_instances, Runs, need_ge0, need_eq0, definite, soft, iterations
 from ..report import Ob, PROVED, REFUTED, UNDECIDED, func_where, ASSUMPTIONS, Failure
 from ..model import norm_text, AnalysisError
 from ..units import exc_key
@@ -232,6 +232,8 @@ def check(prog, res, tier):
         return it.call_function(vfi, [fin, fout], {})
     runs_v = Runs(prog, entry_v, res=res)
 
+    seen_e = {'reads': 0}
+
     def chk_e(p, mode):
         fails = []
         st = p.store
@@ -270,6 +272,21 @@ def check(prog, res, tier):
                         and d.segs[0].src is blk.segs[0].src and st.decide_eq0(d.segs[0].lo - blk.segs[0].lo) is True
                         and st.decide_eq0(d.segs[0].hi - d.segs[0].lo - PAYLOAD) is True):
                     fails.append(definite(f'payload written is {d!r}, not the first {PAYLOAD} bytes of the block', e.node))
+        # every block that is read and not refused is written: between a read and the next read / the end of the path
+        # its payload goes to the output (only the empty read at the end of the data writes nothing)
+        if p.outcome in ('return', 'loopback'):
+            evs = [e for e in p.events if (e.kind == 'read' and e.data['file'] is fin) or (e.kind == 'write' and e.data['file'] is fout)]
+            for i, e in enumerate(evs):
+                if e.kind != 'read':
+                    continue
+                seen_e['reads'] += mode == 'inv'
+                blk = e.data['data']
+                nxt = evs[i + 1] if i + 1 < len(evs) else None
+                written = nxt is not None and nxt.kind == 'write' and isinstance(nxt.data['data'], SeqV) and blk.segs and \
+                    any(isinstance(g, Sl) and g.src is blk.segs[0].src for g in nxt.data['data'].segs)
+                if not written:
+                    fails += need_eq0(st, blk.length(), 'a block is read and accepted but its payload is not written to the output',
+                                      e.node)
         if p.outcome == 'return':
             # normal end only at an empty read
             if last_read is not None:
@@ -277,8 +294,10 @@ def check(prog, res, tier):
         if p.outcome == 'raise' and exc_key(p.value.cls) != MLIB:
             fails.append(definite(f'unblock_1014 raises {p.value!r}'))
         return fails
-    res.add(runs_v.judge('C05.e', 'unblock_1014 writes block[0:1012] only after validating size 1014 and trailer 0x40 0x40; '
-                                  'it ends normally only at an empty read', func_where(vfi), 'size / trailer validation ladder', chk_e))
+    res.add(require_instances(
+        runs_v.judge('C05.e', 'unblock_1014 writes block[0:1012] of every block, and only after validating size 1014 and trailer '
+                              '0x40 0x40; it ends normally only at an empty read', func_where(vfi), 'size / trailer validation ladder', chk_e),
+        seen_e['reads'], 'a read of the input by unblock_1014'))
 
     def chk_e2(p, mode):
         """every short or badly terminated block is refused"""
